@@ -149,7 +149,7 @@ pub fn op(cfg: ProgCfg, nkeys: usize, nblobs: usize) -> BoxedStrategy<Op> {
             prop_oneof![3 => Just(XKind::Copy), 2 => Just(XKind::HardLink), 1 => Just(XKind::Reflink)],
             prop::bool::weighted(0.7),
             gen::by(nkeys, nblobs),
-            prop_oneof![4 => Just(Dest::Absent), 2 => Just(Dest::Existing), 1 => Just(Dest::OtherFs), 1 => Just(Dest::LongName), 1 => Just(Dest::WithSiblings), 1 => Just(Dest::LinkOfContent)],
+            prop_oneof![4 => Just(Dest::Absent), 2 => Just(Dest::Existing), 1 => Just(Dest::OtherFs), 1 => Just(Dest::LongName), 1 => Just(Dest::WithSiblings), 1 => Just(Dest::LinkOfContent), 1 => Just(Dest::ExistingSuperset), 1 => Just(Dest::SymlinkToContent), 1 => Just(Dest::Directory)],
         )
             .prop_map(|(kind, checked, by, dest)| Op::Extract { kind, checked, by, dest })
             .boxed(),
